@@ -462,30 +462,46 @@ theorem trial_inv (forb : List Ix) (tg : Targets) (c0 : Costs) (picks : List Ix)
     · exact h
     · exact trialLoop_inv forb tg c0 picks cache [] cost h (h _ (cache_get_mem _ _ _ hget))
 
+/-- the trials of a `search` keep the cache invariant, whatever cache they start from -/
+theorem searchLoop_inv (forb : List Ix) (tg : Targets) (c0 : Costs) (trials : List (List Ix)) :
+    ∀ cache, CacheInv forb c0 cache → CacheInv forb c0 (searchLoop forb tg trials cache).1 := by
+  induction trials with
+  | nil => intro cache h; exact h
+  | cons p rest ih =>
+    intro cache h
+    unfold searchLoop
+    have ht := trial_inv forb tg c0 p cache h
+    split
+    · rename_i cache' _ _ heq
+      rw [heq] at ht
+      exact ih cache' ht
+    · rename_i cache' r _ heq
+      rw [heq] at ht
+      exact ht
+
+theorem cacheInv_init (forb : List Ix) (c0 : Costs) : CacheInv forb c0 [([], c0)] := by
+  intro kc hkc
+  simp only [List.mem_singleton] at hkc; subst hkc
+  exact ⟨[], rfl, Reach.base, fun _ h => by cases h⟩
+
+/-- **session_cache_sound.** One finder object, any history of `search` calls with any per-call
+    targets and any oracle answers (also calls that raised): every entry of `SliceFinder.costs`
+    is still a genuine removal chain avoiding the forbidden set. -/
+theorem session_cache_sound (forb : List Ix) (tg0 : Targets) (c0 : Costs) (calls : List Call) :
+    ∀ cache, CacheInv forb c0 cache → CacheInv forb c0 (sessionCache forb tg0 calls cache) := by
+  induction calls with
+  | nil => intro cache h; exact h
+  | cons cl rest ih =>
+    intro cache h
+    unfold sessionCache
+    exact ih _ (searchLoop_inv forb _ c0 cl.trials cache h)
+
 /-- **cache_sound.** After any number of trials with any oracle answers, every entry
     `(key, cost)` of `SliceFinder.costs` is a chain of `remove`s from the unsliced cost along
     indices whose set is `key`, none of them forbidden. -/
 theorem cache_sound (forb : List Ix) (tg : Targets) (c0 : Costs) (trials : List (List Ix)) :
-    CacheInv forb c0 (searchLoop forb tg trials [([], c0)]).1 := by
-  have h0 : CacheInv forb c0 [([], c0)] := by
-    intro kc hkc
-    simp only [List.mem_singleton] at hkc; subst hkc
-    exact ⟨[], rfl, Reach.base, fun _ h => by cases h⟩
-  have : ∀ cache, CacheInv forb c0 cache → CacheInv forb c0 (searchLoop forb tg trials cache).1 := by
-    induction trials with
-    | nil => intro cache h; exact h
-    | cons p rest ih =>
-      intro cache h
-      unfold searchLoop
-      have ht := trial_inv forb tg c0 p cache h
-      split
-      · rename_i cache' _ _ heq
-        rw [heq] at ht
-        exact ih cache' ht
-      · rename_i cache' r _ heq
-        rw [heq] at ht
-        exact ht
-  exact this _ h0
+    CacheInv forb c0 (searchLoop forb tg trials [([], c0)]).1 :=
+  searchLoop_inv forb tg c0 trials _ (cacheInv_init forb c0)
 
 /-- **never_forbidden.** No key of `costs` contains a forbidden index — for every oracle (so the
     `raise` at slicer.py:379 is what keeps output indices out when `allow_outer=False`, and inner
@@ -543,18 +559,13 @@ theorem best_meets_targets (tg : Targets) (cache : Cache) (k : List Ix) (c : Cos
   · intro s hs; rw [hs] at hv; simpa using hv.2
   · intro p q hs; rw [hs] at hv; simpa [Costs.overheadLe] using hv.1.2
 
-/-- **search_sound** (the property). Start a `SliceFinder` on the tree `t` (already removed `rm`,
-    of which `sliced` multiply the slice count), run any trials with any oracle answers, call
-    `best`. If it returns `(key, cost)`, then `key` is the set of a removal chain `ixs` that avoids
-    the forbidden set, the predicted figures are those of the tree sliced on `ixs` as well, and
-    every specified target holds **on that tree**: largest intermediate ≤ `target_size`, number
-    of slices ≥ `target_slices` × (current number of slices), total flops ≤ `p/q` × the flops of the
-    tree before. -/
-theorem search_sound (n : Net) (rm sliced : List Ix) (t : BT) (order : List BT) (hyp : TreeHyp n t)
+/-- the conclusion of `search_sound` for a result of `best` on *any* cache satisfying the cache
+    invariant (shared by `search_sound` and `session_sound`) -/
+theorem best_on_inv_sound (n : Net) (rm sliced : List Ix) (t : BT) (order : List BT) (hyp : TreeHyp n t)
     (hperm : order.Perm t.internal) (hnode : t.internal ≠ []) (c0 : Costs)
     (hinit : Costs.init (order.map (conOf n rm t)) n.sizes = some c0)
-    (forb : List Ix) (tg : Targets) (trials : List (List Ix)) (k : List Ix) (c : Costs)
-    (h : best tg (searchLoop forb tg trials [([], c0)]).1 = some (k, c)) :
+    (forb : List Ix) (tg : Targets) (cache : Cache) (hinv : CacheInv forb c0 cache)
+    (k : List Ix) (c : Costs) (h : best tg cache = some (k, c)) :
     ∃ ixs, keyOf ixs = k ∧ (∀ x ∈ ixs, x ∉ forb) ∧
       let st := n.stats (ixs.reverse ++ rm) (ixs.reverse ++ sliced) t
       let st0 := n.stats rm sliced t
@@ -565,7 +576,7 @@ theorem search_sound (n : Net) (rm sliced : List Ix) (t : BT) (order : List BT) 
       (∀ s, tg.slices = some s → s * n.mult sliced ≤ n.mult (ixs.reverse ++ sliced)) ∧
       (∀ p q, tg.overhead = some (p, q) → st.flops * q ≤ p * st0.flops) := by
   obtain ⟨hmem, hsz, hsl, hov⟩ := best_meets_targets tg _ k c h
-  obtain ⟨ixs, hk, hreach, hforb⟩ := cache_sound forb tg c0 trials (k, c) hmem
+  obtain ⟨ixs, hk, hreach, hforb⟩ := hinv (k, c) hmem
   obtain ⟨e1, e2, e3⟩ := costs_eq_sliced_tree_stats n rm sliced t order hyp hperm c0 hinit ixs c hreach hnode
   obtain ⟨_, _, _, e4⟩ := costs_remove_eq_tree n rm t order hyp hperm c0 hinit ixs c hreach
   refine ⟨ixs, hk, hforb, e1, e2, e3, ?_, ?_, ?_⟩
@@ -594,6 +605,75 @@ theorem search_sound (n : Net) (rm sliced : List Ix) (t : BT) (order : List BT) 
         _ = p * (((n.mult sliced : Nat) : Int) * c.originalFlops) := by ring
     exact_mod_cast this
 
+/-- **search_sound** (the property). Start a `SliceFinder` on the tree `t` (already removed `rm`,
+    of which `sliced` multiply the slice count), run any trials with any oracle answers, call
+    `best`. If it returns `(key, cost)`, then `key` is the set of a removal chain `ixs` that avoids
+    the forbidden set, the predicted figures are those of the tree sliced on `ixs` as well, and
+    every specified target holds **on that tree**: largest intermediate ≤ `target_size`, number
+    of slices ≥ `target_slices` × (current number of slices), total flops ≤ `p/q` × the flops of the
+    tree before. -/
+theorem search_sound (n : Net) (rm sliced : List Ix) (t : BT) (order : List BT) (hyp : TreeHyp n t)
+    (hperm : order.Perm t.internal) (hnode : t.internal ≠ []) (c0 : Costs)
+    (hinit : Costs.init (order.map (conOf n rm t)) n.sizes = some c0)
+    (forb : List Ix) (tg : Targets) (trials : List (List Ix)) (k : List Ix) (c : Costs)
+    (h : best tg (searchLoop forb tg trials [([], c0)]).1 = some (k, c)) :
+    ∃ ixs, keyOf ixs = k ∧ (∀ x ∈ ixs, x ∉ forb) ∧
+      let st := n.stats (ixs.reverse ++ rm) (ixs.reverse ++ sliced) t
+      let st0 := n.stats rm sliced t
+      ((n.mult sliced : Nat) : Int) * c.totalFlops = (st.flops : Int) ∧
+      c.size = some st.size ∧
+      n.mult (ixs.reverse ++ sliced) = n.mult sliced * c.nslices ∧
+      (∀ s, tg.size = some s → st.size ≤ s) ∧
+      (∀ s, tg.slices = some s → s * n.mult sliced ≤ n.mult (ixs.reverse ++ sliced)) ∧
+      (∀ p q, tg.overhead = some (p, q) → st.flops * q ≤ p * st0.flops) :=
+  best_on_inv_sound n rm sliced t order hyp hperm hnode c0 hinit forb tg _
+    (cache_sound forb tg c0 trials) k c h
+
+/-- **session_sound** (the property for a finder that is *re-used*). One `SliceFinder` built with
+    constructor targets `tg0`; any history `before` of earlier `search` calls on it (each with its
+    own per-call targets and oracle answers, returning or raising), then a call `cl`. If that call
+    returns `(key, cost)`, then — with the targets *in force for that call* (`cl.over.orElse tg0`:
+    the per-call value where one was given, else the constructor's) — `key` is the set of a removal
+    chain avoiding the forbidden set, the predicted figures are those of the tree sliced on it,
+    and every specified target holds on that tree. -/
+theorem session_sound (n : Net) (rm sliced : List Ix) (t : BT) (order : List BT) (hyp : TreeHyp n t)
+    (hperm : order.Perm t.internal) (hnode : t.internal ≠ []) (c0 : Costs)
+    (hinit : Costs.init (order.map (conOf n rm t)) n.sizes = some c0)
+    (forb : List Ix) (tg0 : Targets) (before : List Call) (cl : Call) (k : List Ix) (c : Costs)
+    (h : callResult forb tg0 cl (sessionCache forb tg0 before [([], c0)]) = some (k, c)) :
+    let tg := cl.over.orElse tg0
+    ∃ ixs, keyOf ixs = k ∧ (∀ x ∈ ixs, x ∉ forb) ∧
+      let st := n.stats (ixs.reverse ++ rm) (ixs.reverse ++ sliced) t
+      let st0 := n.stats rm sliced t
+      ((n.mult sliced : Nat) : Int) * c.totalFlops = (st.flops : Int) ∧
+      c.size = some st.size ∧
+      n.mult (ixs.reverse ++ sliced) = n.mult sliced * c.nslices ∧
+      (∀ s, tg.size = some s → st.size ≤ s) ∧
+      (∀ s, tg.slices = some s → s * n.mult sliced ≤ n.mult (ixs.reverse ++ sliced)) ∧
+      (∀ p q, tg.overhead = some (p, q) → st.flops * q ≤ p * st0.flops) := by
+  intro tg
+  have hinv0 := session_cache_sound forb tg0 c0 before _ (cacheInv_init forb c0)
+  have hinv1 := searchLoop_inv forb tg c0 cl.trials _ hinv0
+  unfold callResult at h
+  split at h
+  · rename_i cache' heq
+    have hc : cache' = (searchLoop forb tg cl.trials (sessionCache forb tg0 before [([], c0)])).1 := by
+      show cache' = (searchLoop forb (cl.over.orElse tg0) cl.trials _).1
+      rw [heq]
+    rw [hc] at h
+    exact best_on_inv_sound n rm sliced t order hyp hperm hnode c0 hinit forb tg _ hinv1 k c h
+  · cases h
+
+/-- the per-call value wins where one is given; a field left `None` falls back to the constructor -/
+theorem orElse_spec (call ctor : Targets) :
+    (∀ s, call.size = some s → (call.orElse ctor).size = some s) ∧
+    (call.size = none → (call.orElse ctor).size = ctor.size) ∧
+    (∀ s, call.slices = some s → (call.orElse ctor).slices = some s) ∧
+    (call.slices = none → (call.orElse ctor).slices = ctor.slices) ∧
+    (∀ s, call.overhead = some s → (call.orElse ctor).overhead = some s) ∧
+    (call.overhead = none → (call.orElse ctor).overhead = ctor.overhead) := by
+  refine ⟨?_, ?_, ?_, ?_, ?_, ?_⟩ <;> intro h <;> (try intro h') <;> simp_all [Targets.orElse]
+
 /-! ## non-vacuity -/
 
 def exNet : Net :=
@@ -614,6 +694,16 @@ example : ((Costs.init (treeCons exNet [] exTree) exNet.sizes).bind
 example : ((Costs.init (treeCons exNet [] exTree) exNet.sizes).bind fun c0 =>
     best ⟨none, none, some 3⟩ (searchLoop [0] ⟨none, none, some 3⟩ [[1]] [([], c0)]).1).map
       (fun kc => (kc.1, kc.2.nslices)) = some ([1], 3) := by
+  decide
+
+/-- a re-used finder: built with `target_slices = 2`, first asked with its own targets (one trial
+    picking index 1 -> 3 slices), then asked for `target_slices = 6` in the call itself (one trial
+    picking 1 then 2): the second call returns the slicing `{1, 2}` with 12 slices — the per-call
+    target, not the constructor's, is in force -/
+example : ((Costs.init (treeCons exNet [] exTree) exNet.sizes).bind fun c0 =>
+    callResult [0] ⟨none, none, some 2⟩ ⟨⟨none, none, some 6⟩, [[1, 2]]⟩
+      (sessionCache [0] ⟨none, none, some 2⟩ [⟨⟨none, none, none⟩, [[1]]⟩] [([], c0)])).map
+      (fun kc => (kc.1, kc.2.nslices)) = some ([1, 2], 12) := by
   decide
 
 end Cotengra.C07
